@@ -6,6 +6,12 @@ ENGINES = [
 ]
 NOT_BUILT_REASON = {}
 META = {
+    "C13": {
+        "engine": "vkit (E2) + venv (E3)",
+        "technique": "exhaustive enumeration of (splitter, sign, factor, difference) statements around the boundary and at 2^k differences, every three-square table entry, combinations; environment-answer deviations",
+        "text": "For differences -3..40 (thorough 300) and 2^k, 2^k+-1 up to 2^255, both signs, factors 1..8 with four squares; factor 1 with GenerateSquaresTable(16|64) and every table entry; 2-3 statements on one and two attributes; each random draw of an honest range proof forced to min/max/short: true statement => proof is created, verifies and Proves(statement); false => refused.",
+        "note": "One known finding (K01: three-square <= at equality). Key size toy only (completeness of the range part does not depend on the modulus size); 'random differences' of the quantifier replaced by boundary families.",
+    },
     "C12": {
         "engine": "vkit (E2), model bound to the real proof structure",
         "technique": "exhaustive enumeration of proof descriptors x queried statements x attribute values on an integer box against integer semantics; exhaustive alteration/transplant enumeration of real range proofs with a semantic oracle",
